@@ -37,6 +37,7 @@ fn dispatch(args: &common::Args) {
         "C08" => props::c08::main(args),
         "C09" => props::c09::main(args),
         "C10" => props::c10::main(args),
+        "C11" => props::c11::main(args),
         "C12" => props::c12::main(args),
         "C13" => props::c13::main(args),
         "C14" => props::c14::main(args),
